@@ -25,7 +25,7 @@ let parse_cfg (toks : string list) : e2e_cfg =
 
 let parse_event (text : string) : sys_event =
   match split_on ' ' text with
-  | "CALL" :: id :: rest -> SCall (n_of_int (int_of_string id), Cl_io.parse_api rest)
+  | ("CALL" | "CALLS") :: id :: rest -> SCall (n_of_int (int_of_string id), Cl_io.parse_api rest)
   | "BPUB" :: rest -> SBpub (Gw_io.parse_mq rest)
   | "BBURST" :: rest ->
     (* PUBLISH specs separated by "|" *)
